@@ -541,6 +541,71 @@ pub fn aging_big(cap: u32) -> (String, Vec<Violation>) {
         if problems.is_empty() {
             compare(&s, &rf, size, format!("after {total} increments"), &mut problems);
         }
+        // hashes at the ends of the index arithmetic: for each of the four rows, inputs whose
+        // mixed value (hash + seed) * seed lands on 2^64 - 1, 2^64 - 2, 2^64 - 2^32 and
+        // 2^64 - 2^16 (every later addition wraps), plus 0, 1 and u64::MAX themselves.
+        // (The seeds are the ones of Caffeine's sketch that the code uses; with other seeds
+        // these are just ordinary hashes.)
+        if problems.is_empty() {
+            fn inv(a: u64) -> u64 {
+                // Newton iteration for the inverse of an odd number modulo 2^64
+                let mut x = a;
+                for _ in 0..6 {
+                    x = x.wrapping_mul(2u64.wrapping_sub(a.wrapping_mul(x)));
+                }
+                x
+            }
+            let seeds = [0xc3a5_c85c_97cb_3127u64, 0xb492_b66f_be98_f273, 0x9ae1_6a3b_2f90_404f, 0xcbf2_9ce4_8422_2325];
+            let mut edge: Vec<u64> = vec![0, 1, u64::MAX, u64::MAX - 1, 1 << 63, (1 << 63) - 1];
+            for sd in seeds {
+                for x in [u64::MAX, u64::MAX - 1, 0u64.wrapping_sub(1 << 32), 0u64.wrapping_sub(1 << 16), 0xFFFF_FFFF_7FFF_FFFF] {
+                    edge.push(x.wrapping_mul(inv(sd)).wrapping_sub(sd));
+                }
+            }
+            for h in edge {
+                let f = foot(&s, h);
+                let before = s.frequency(h);
+                s.increment(h);
+                if rf.inc(&f) {
+                    size += 1;
+                    if size >= sample {
+                        let odd = rf.nib.iter().filter(|c| **c & 1 == 1).count() as u64;
+                        rf.halve();
+                        size = (size - (odd >> 2)) >> 1;
+                    }
+                }
+                let after = s.frequency(h);
+                if after != rf.freq(&f) {
+                    problems.push(format!("edge hash {h:#x}: estimate {after} (was {before}) where the reference has {}", rf.freq(&f)));
+                    break;
+                }
+            }
+        }
+        // asking again for a capacity the table already covers (the same, a smaller one, 0)
+        // changes nothing: not the table, not its geometry, not one estimate
+        if problems.is_empty() {
+            let probes: Vec<u64> = (0..64u64).map(|i| i.wrapping_mul(0x9E37_79B9_7F4A_7C15)).collect();
+            let before: Vec<u8> = probes.iter().map(|h| s.frequency(*h)).collect();
+            for c2 in [cap, cap / 2, 1, 0] {
+                s.ensure_capacity(c2);
+                let snap = s.snapshot();
+                let after: Vec<u8> = probes.iter().map(|h| s.frequency(*h)).collect();
+                if snap.table_len != snap0.table_len || snap.sample_size != snap0.sample_size || after != before {
+                    problems.push(format!(
+                        "ensure_capacity({c2}) on a sketch of capacity {cap} changed it: table {} -> {} words, sample size {} -> {}, {} of 64 probed estimates differ",
+                        snap0.table_len,
+                        snap.table_len,
+                        snap0.sample_size,
+                        snap.sample_size,
+                        after.iter().zip(before.iter()).filter(|(a, b)| a != b).count()
+                    ));
+                    break;
+                }
+            }
+            if problems.is_empty() {
+                compare(&s, &rf, size, "after asking for smaller capacities".to_string(), &mut problems);
+            }
+        }
         (snap0.table_len, sample, total, agings, problems)
     }));
     let (table_len, sample, total, agings) = match r {
